@@ -14,16 +14,20 @@ package load
 //   (2) Allow rejects => overload now or an overload reading <= 1 s ago, AND the
 //       number of outstanding admitted requests > capacity AND the shedder's own
 //       smoothed in-flight value > capacity, capacity = maxPass x buckets-per-second
-//       x min(1000, floor(min per-bucket mean latency ms)) / 1000 over the complete
-//       (non-current) buckets of the reference windows, 0 when they are empty;
+//       x min(1000, min per-bucket mean latency ms) / 1000 over the complete
+//       (non-current) buckets of the reference windows, 0 when they are empty; the
+//       per-bucket mean is the EXACT mean of the true latencies (nanoseconds), relaxed
+//       to the millisecond-granular value round(mean(ceil(latency ms))) when that is
+//       smaller (whole-ms bookkeeping that never under-states a sample is accepted);
 //   (3) whenever every admitted request has reported Pass or Fail, flying == 0;
 //       flying is never negative; the smoothed value stays within [0, max outstanding].
-// The reference capacity is never larger than what the statement allows (floor instead
-// of round, no lower bound of 1, no defaults for empty windows), so a shedder that
-// rejects less is never reported.
+// The reference capacity is never larger than what the statement allows (no lower
+// bound of 1, no defaults for empty windows), so a shedder that rejects less is never
+// reported; a shedder that under-states latencies (e.g. truncates them) is.
 
 import (
 	"fmt"
+	"math"
 	"math/rand"
 	"runtime"
 	"sync"
@@ -80,9 +84,9 @@ func c09NewNop() Shedder {
 // ---- scenario ----
 
 type c09Op struct {
-	Op string `json:"op"`          // arr | pass | fail | adv | cpu
+	Op string `json:"op"`          // arr | pass | fail | adv (ms) | advu (microseconds) | cpu
 	I  int    `json:"i,omitempty"` // pass/fail: index into the outstanding list (mod len)
-	D  int64  `json:"d,omitempty"` // adv: milliseconds; cpu: reading
+	D  int64  `json:"d,omitempty"` // adv: milliseconds; advu: microseconds; cpu: reading
 }
 
 type c09Trace struct {
@@ -93,11 +97,11 @@ type c09Trace struct {
 	Ops       []c09Op `json:"ops"`
 }
 
-type c09RB struct{ passes, rtSum, n int64 }
+type c09RB struct{ passes, rtSumNs, rtSumCeilMs, n int64 }
 
 type c09Out struct {
 	p     Promise
-	start int64 // virtual ms
+	start int64 // virtual ns
 }
 
 type c09ShObs struct {
@@ -110,12 +114,16 @@ type c09ShObs struct {
 	boundaryExactly1s             int64 // Allow exactly 1000 ms after the last overload reading (not asserted either way)
 	capacityFromWindow            int64 // rejections at which the reference windows were non-empty (capacity > 0)
 	passes, fails                 int64
+	passesFractional, passesSubMs int64 // Pass calls whose latency is not a whole ms / is below 1 ms
 	quiescenceChecks              int64
 	maxOutstanding, checkerCalls  int64
 	lastRejectDetail, lastAdmitAt string
 }
 
-func c09Cap(win map[int64]*c09RB, cur int64, buckets int, bps int64) (capMilli int64, maxPass, minRt int64) {
+const c09Ms = int64(time.Millisecond)
+
+// c09Cap returns the reference capacity (real number of requests) at bucket cur.
+func c09Cap(win map[int64]*c09RB, cur int64, buckets int, bps int64) (capacity float64, maxPass int64, minRt float64) {
 	minRt = -1
 	for i := cur - int64(buckets) + 1; i <= cur-1; i++ {
 		b := win[i]
@@ -125,7 +133,10 @@ func c09Cap(win map[int64]*c09RB, cur int64, buckets int, bps int64) (capMilli i
 		if b.passes > maxPass {
 			maxPass = b.passes
 		}
-		mean := b.rtSum / b.n // floor of the per-bucket mean (whole-ms latencies)
+		mean := float64(b.rtSumNs) / float64(b.n) / float64(c09Ms) // exact mean latency, ms
+		if g := math.Round(float64(b.rtSumCeilMs) / float64(b.n)); g < mean {
+			mean = g // millisecond-granular bookkeeping (samples rounded up, mean rounded) is accepted
+		}
 		if mean > 1000 {
 			mean = 1000
 		}
@@ -136,19 +147,19 @@ func c09Cap(win map[int64]*c09RB, cur int64, buckets int, bps int64) (capMilli i
 	if minRt < 0 {
 		return 0, 0, 0
 	}
-	return maxPass * bps * minRt, maxPass, minRt
+	return float64(maxPass*bps) * minRt / 1000, maxPass, minRt
 }
 
 // c09RunTrace runs one sequential trace against a fresh shedder.
 func c09RunTrace(m *vk.M, idx int, tr c09Trace, obs *c09ShObs) {
 	desc := func() string { return fmt.Sprintf("case=%d;%s", idx, vk.JSON(tr)) }
 	bucketNs := tr.BucketMs * int64(time.Millisecond)
-	startMs := (1_000_000 + int64(idx%1000)) * tr.BucketMs // on the bucket grid
-	timex.VerifFakeClock(time.Duration(startMs) * time.Millisecond)
+	startNs := (1_000_000 + int64(idx%1000)) * bucketNs // on the bucket grid
+	timex.VerifFakeClock(time.Duration(startNs))
 	atomic.StoreInt64(&c09CPU, tr.CPU0)
 	sh := NewAdaptiveShedder(WithWindow(time.Duration(bucketNs)*time.Duration(tr.Buckets)), WithBuckets(tr.Buckets), WithCpuThreshold(tr.Threshold))
 	bps := 1000 / tr.BucketMs
-	now := startMs
+	now := startNs // virtual ns
 	cpu := tr.CPU0
 	var outst []c09Out
 	win := map[int64]*c09RB{}
@@ -180,10 +191,14 @@ func c09RunTrace(m *vk.M, idx int, tr c09Trace, obs *c09ShObs) {
 
 	for step, op := range tr.Ops {
 		switch op.Op {
-		case "adv":
-			timex.VerifAdvance(time.Duration(op.D) * time.Millisecond)
-			now += op.D
-			cur := (now - startMs) / tr.BucketMs
+		case "adv", "advu":
+			d := op.D * c09Ms
+			if op.Op == "advu" {
+				d = op.D * int64(time.Microsecond)
+			}
+			timex.VerifAdvance(time.Duration(d))
+			now += d
+			cur := (now - startNs) / bucketNs
 			for i := range win {
 				if i < cur-int64(tr.Buckets) {
 					delete(win, i)
@@ -202,14 +217,22 @@ func c09RunTrace(m *vk.M, idx int, tr c09Trace, obs *c09ShObs) {
 			if op.Op == "pass" {
 				o.p.Pass()
 				obs.passes++
-				cur := (now - startMs) / tr.BucketMs
+				cur := (now - startNs) / bucketNs
 				b := win[cur]
 				if b == nil {
 					b = &c09RB{}
 					win[cur] = b
 				}
 				b.passes++
-				b.rtSum += now - o.start
+				lat := now - o.start
+				b.rtSumNs += lat
+				b.rtSumCeilMs += (lat + c09Ms - 1) / c09Ms
+				if lat%c09Ms != 0 {
+					obs.passesFractional++
+				}
+				if lat < c09Ms {
+					obs.passesSubMs++
+				}
 				b.n++
 			} else {
 				o.p.Fail()
@@ -221,10 +244,10 @@ func c09RunTrace(m *vk.M, idx int, tr c09Trace, obs *c09ShObs) {
 		case "arr":
 			overNow := cpu >= tr.Threshold
 			since := now - tOver
-			cool := !overNow && (!hasOver || since > 1000)
-			hotWindow := hasOver && since <= 1000
-			cur := (now - startMs) / tr.BucketMs
-			capMilli, maxPass, minRt := c09Cap(win, cur, tr.Buckets, bps)
+			cool := !overNow && (!hasOver || since > 1000*c09Ms)
+			hotWindow := hasOver && since <= 1000*c09Ms
+			cur := (now - startNs) / bucketNs
+			capacity, maxPass, minRt := c09Cap(win, cur, tr.Buckets, bps)
 			out := int64(len(outst))
 			avg := c09AvgFlying(sh)
 			if cool {
@@ -233,9 +256,10 @@ func c09RunTrace(m *vk.M, idx int, tr c09Trace, obs *c09ShObs) {
 					obs.clause1AfterCoolOff++
 				}
 			}
-			if !overNow && hasOver && since == 1000 {
+			if !overNow && hasOver && since == 1000*c09Ms {
 				obs.boundaryExactly1s++
 			}
+			ago := c09Ago(hasOver, since)
 			p, err := sh.Allow()
 			if overNow {
 				hasOver, tOver = true, now
@@ -256,8 +280,8 @@ func c09RunTrace(m *vk.M, idx int, tr c09Trace, obs *c09ShObs) {
 			}
 			obs.rejected++
 			obs.clause2Checked++
-			state := fmt.Sprintf("virtual t=+%dms cpu=%d threshold=%d lastOverloadReading=%s outstanding=%d avgFlying=%.3f; reference window: maxPass/bucket=%d bucketsPerSecond=%d minMeanLatency=%dms capacity=%.3f",
-				now-startMs, cpu, tr.Threshold, c09Ago(hasOver, since), out, avg, maxPass, bps, minRt, float64(capMilli)/1000)
+			state := fmt.Sprintf("virtual t=+%.3fms cpu=%d threshold=%d lastOverloadReading=%s outstanding=%d avgFlying=%.3f; reference window: maxPass/bucket=%d bucketsPerSecond=%d minMeanLatency=%.4fms capacity=%.3f",
+				float64(now-startNs)/1e6, cpu, tr.Threshold, ago, out, avg, maxPass, bps, minRt, capacity)
 			obs.lastRejectDetail = state
 			if cool {
 				sub := "never-overloaded"
@@ -272,8 +296,8 @@ func c09RunTrace(m *vk.M, idx int, tr c09Trace, obs *c09ShObs) {
 			} else if hotWindow {
 				obs.rejectedStillHot++
 			}
-			capReal := float64(capMilli) / 1000 * (1 - 1e-9)
-			if capMilli > 0 {
+			capReal := capacity * (1 - 1e-9)
+			if capacity > 0 {
 				obs.capacityFromWindow++
 			}
 			if !(float64(out) > capReal) {
@@ -307,7 +331,7 @@ func c09Ago(has bool, since int64) string {
 	if !has {
 		return "never"
 	}
-	return fmt.Sprintf("%dms ago", since)
+	return fmt.Sprintf("%.3fms ago", float64(since)/1e6)
 }
 
 func c09GenTrace(r *rand.Rand, nops int) c09Trace {
@@ -346,7 +370,11 @@ func c09GenTrace(r *rand.Rand, nops int) c09Trace {
 	}
 	churn := func(rounds int) {
 		for i := 0; i < rounds; i++ {
-			if r.Intn(3) > 0 {
+			switch r.Intn(4) {
+			case 0:
+			case 1: // fractional-millisecond step
+				emit(c09Op{Op: "advu", D: 50 + int64(r.Intn(5000))})
+			default:
 				emit(c09Op{Op: "adv", D: small()})
 			}
 			complete()
@@ -430,6 +458,98 @@ func c09GenTrace(r *rand.Rand, nops int) c09Trace {
 	return tr
 }
 
+// c09GenPipeline builds a steady pipeline of c concurrent requests that each take
+// exactly L = c*s (a fractional or sub-millisecond latency; by Little's law the
+// capacity the statement defines is then ~c), followed by an overload phase that
+// probes in-flight levels just below and far above that capacity.
+func c09GenPipeline(r *rand.Rand) c09Trace {
+	tr := c09Trace{
+		BucketMs:  []int64{50, 100}[r.Intn(2)],
+		Buckets:   []int{3, 5, 10}[r.Intn(3)],
+		Threshold: 900,
+		CPU0:      int64(r.Intn(900)),
+	}
+	emit := func(op c09Op) { tr.Ops = append(tr.Ops, op) }
+	c := 4 + r.Intn(28)
+	var lus int64 // target latency, microseconds
+	switch r.Intn(4) {
+	case 0:
+		lus = 300 + int64(r.Intn(650)) // sub-millisecond
+	case 1:
+		lus = 1000*int64(1+r.Intn(6)) + 100 + int64(r.Intn(800)) // k.x ms
+	case 2:
+		lus = 1000*int64(1+r.Intn(4)) + 1 + int64(r.Intn(20)) // just above a whole ms
+	default:
+		lus = 1000*int64(1+r.Intn(4)) + 979 + int64(r.Intn(20)) // just below a whole ms
+	}
+	s := lus / int64(c)
+	if s < 1 {
+		s = 1
+	}
+	jitter := int64(0)
+	if r.Intn(3) == 0 && s > 4 {
+		jitter = 1 + r.Int63n(s/4)
+	}
+	step := func() {
+		d := s
+		if jitter > 0 {
+			d += r.Int63n(2*jitter+1) - jitter
+		}
+		emit(c09Op{Op: "advu", D: d})
+	}
+	finish := func() { // FIFO: the oldest outstanding request completes
+		if r.Intn(50) == 0 {
+			emit(c09Op{Op: "fail", I: 0})
+		} else {
+			emit(c09Op{Op: "pass", I: 0})
+		}
+	}
+	for i := 0; i < c; i++ {
+		emit(c09Op{Op: "arr"})
+		step()
+	}
+	perBucket := tr.BucketMs * 1000 / s
+	steps := perBucket*int64(1+r.Intn(2)) + r.Int63n(perBucket+1)
+	if r.Intn(5) == 0 {
+		steps = perBucket/2 + r.Int63n(perBucket) // sometimes less than a complete bucket of data
+	}
+	if steps > 7000 {
+		steps = 7000
+	}
+	for i := int64(0); i < steps; i++ {
+		finish()
+		emit(c09Op{Op: "arr"})
+		step()
+	}
+	emit(c09Op{Op: "cpu", D: 900 + int64(r.Intn(200))})
+	// probe levels at and just below the steady level
+	for i, k := 0, r.Intn(c/2+1); i < k; i++ {
+		finish()
+		step()
+	}
+	for i, n := 0, c/2+r.Intn(c+1); i < n; i++ {
+		emit(c09Op{Op: "arr"})
+		if r.Intn(3) == 0 {
+			finish()
+			step()
+		}
+	}
+	// far above: burst, then churn so that the smoothed value follows
+	for i := 0; i < 2*c; i++ {
+		emit(c09Op{Op: "arr"})
+	}
+	for i, n := 0, 30+r.Intn(40); i < n; i++ {
+		finish()
+		emit(c09Op{Op: "arr"})
+		step()
+	}
+	emit(c09Op{Op: "cpu", D: int64(r.Intn(900))})
+	emit(c09Op{Op: "arr"})
+	emit(c09Op{Op: "adv", D: 1001})
+	emit(c09Op{Op: "arr"})
+	return tr
+}
+
 func c09Quiet() {
 	logx.Disable()
 	DisableLog()
@@ -481,11 +601,62 @@ func TestVerifC09ShedderTraces(t *testing.T) {
 	m.Count("rejected_within_cool_off_second", obs.rejectedStillHot)
 	m.Count("rejections_with_window_derived_capacity", obs.capacityFromWindow)
 	m.Count("allow_exactly_1000ms_after_overload_unasserted", obs.boundaryExactly1s)
+	c09CountObs(m, obs)
+}
+
+func c09CountObs(m *vk.M, obs *c09ShObs) {
 	m.Count("pass", obs.passes)
+	m.Count("pass_with_fractional_ms_latency", obs.passesFractional)
+	m.Count("pass_with_sub_ms_latency", obs.passesSubMs)
 	m.Count("fail", obs.fails)
 	m.Count("quiescence_checks_flying_zero", obs.quiescenceChecks)
 	m.Count("scripted_cpu_checker_calls", obs.checkerCalls)
 	m.Max("max_outstanding", obs.maxOutstanding)
+}
+
+// TestVerifC09ShedderFractional: steady pipelines with fractional / sub-millisecond
+// latencies (microsecond virtual-time steps), then overload at in-flight levels just
+// below and far above the capacity the statement defines from the exact latencies.
+func TestVerifC09ShedderFractional(t *testing.T) {
+	m := vk.New(t, "C09", "seeded pipelines: c in 4..31 concurrent requests each taking c*s microseconds (sub-ms, k.x ms, just above / just below a whole ms; optional jitter) for 0.5-3 buckets, then CPU above threshold with arrivals at levels from c/2 to 3c, completions in between; every Allow checked against (1) and (2) with the capacity computed from the exact latencies; non-trivial = a rejection occurred and fractional latencies were recorded")
+	defer m.Done()
+	c09Quiet()
+	restore := c09InstallChecker()
+	defer restore()
+	defer timex.VerifRealClock()
+	n := vk.N(240, 5000)
+	r := m.Rand("pipeline")
+	obs := &c09ShObs{}
+	for idx := 1; idx <= n; idx++ {
+		tr := c09GenPipeline(r)
+		if !m.Only(idx) {
+			continue
+		}
+		before := *obs
+		m.Current(fmt.Sprintf("case=%d", idx))
+		c09RunTrace(m, idx, tr, obs)
+		m.Case(vk.Digest(vk.JSON(tr)), obs.rejected > before.rejected && obs.passesFractional > before.passesFractional)
+		if m.WantSample() && obs.rejected > before.rejected && idx%37 == 1 {
+			short := tr
+			if len(short.Ops) > 8 {
+				short.Ops = short.Ops[:8]
+			}
+			m.Sample(map[string]any{"trace_first_8_ops": short, "ops": len(tr.Ops),
+				"admitted": obs.admitted - before.admitted, "rejected": obs.rejected - before.rejected,
+				"passes_fractional_latency": obs.passesFractional - before.passesFractional,
+				"passes_sub_ms_latency": obs.passesSubMs - before.passesSubMs,
+				"last_rejection_state": obs.lastRejectDetail})
+		}
+		if idx%50 == 0 {
+			m.Progress()
+		}
+	}
+	m.Count("allow_admitted", obs.admitted)
+	m.Count("allow_rejected", obs.rejected)
+	m.Count("clause1_forced_admissions_checked", obs.clause1Checked)
+	m.Count("clause2_rejections_checked", obs.clause2Checked)
+	m.Count("rejections_with_window_derived_capacity", obs.capacityFromWindow)
+	c09CountObs(m, obs)
 }
 
 // TestVerifC09ShedderNop: the disabled shedder (nopshedder.go) never rejects.
